@@ -145,7 +145,7 @@ pub fn oracle_c02(plan: &Plan, built: &Built, r: &Repaired, header_complete: boo
     Ok(())
 }
 
-fn model_call(plan: &Plan, built: &Built, cut: usize, unauth: bool) -> (&'static str, Vec<Value>) {
+pub fn model_call(plan: &Plan, built: &Built, cut: usize, unauth: bool) -> (&'static str, Vec<Value>) {
     if cut < built.header_len || !cfg!(feature = "scaled") {
         return ("", vec![]);
     }
@@ -283,7 +283,7 @@ pub fn c05_cases(rng: &mut Rng, tier: &str, out: &mut Out) {
 }
 
 /// Number of plaintext (block stream) bytes repair may use from the first `cut` archive bytes.
-fn usable_plain_len(plan: &Plan, built: &Built, cut: usize, unauth: bool) -> usize {
+pub fn usable_plain_len(plan: &Plan, built: &Built, cut: usize, unauth: bool) -> usize {
     let body = cut - built.header_len;
     if plan.layers & L_ENC == 0 {
         return body;
